@@ -1,6 +1,4 @@
 package verifsim
 
-func genC09(seed int64, tier string) *Plan { return &Plan{Prop: "C09", Engine: "E5", Seed: seed, Cfg: map[string]int{}} }
 func genC10(seed int64, tier string) *Plan { return &Plan{Prop: "C10", Engine: "E5", Seed: seed, Cfg: map[string]int{}} }
-func runC09(p *Plan, res *Result)          {}
 func runC10(p *Plan, res *Result)          {}
